@@ -455,7 +455,7 @@ pub fn c15_strategy(strict: bool, ops: usize) -> BoxedStrategy<EvCase> {
     let min_ops = ops / 2;
     (sym::key_pool_strategy(8), prop::collection::vec(sym::op_strategy(&cfg), min_ops..=ops))
         .prop_map(move |(keys, ops)| EvCase {
-            hist: HistCase { keys, ops, probe: 0, policy_random: true, limit: 65536, evict_limit: Some(16 * 8 * (24 + 104)) },
+            hist: HistCase { keys, ops, probe: 0, policy_random: true, limit: 65536, evict_limit: Some(16 * 8 * (24 + 104)), tcp: false, max_val: None },
             strict,
             max_val: 104,
         })
@@ -504,7 +504,7 @@ pub fn c14_strategy(strict: bool, ops: usize) -> BoxedStrategy<EvCase> {
                 (choices[sym::pick(szsel, choices.len())].min(3000)) as u32
             };
             EvCase {
-                hist: HistCase { keys, ops, probe: 0, policy_random: true, limit: 65536, evict_limit: Some(l) },
+                hist: HistCase { keys, ops, probe: 0, policy_random: true, limit: 65536, evict_limit: Some(l), tcp: false, max_val: None },
                 strict,
                 max_val,
             }
@@ -527,7 +527,7 @@ fn known_probes() -> Vec<(&'static str, EvCase)> {
     let keys = vec![KeyHex(b"a".to_vec()), KeyHex(b"b".to_vec())];
     let set = |k: u8, n: u16, ttl: u32, cas: CasSel| SymOp::Store { kind: StoreKind::Set, quiet: false, k, v: ValSel::Sized(n, 1), flags: 0, ttl, cas };
     let mk = |ops: Vec<SymOp>, limit: u64| EvCase {
-        hist: HistCase { keys: keys.clone(), ops, probe: 0, policy_random: true, limit: 65536, evict_limit: Some(limit) },
+        hist: HistCase { keys: keys.clone(), ops, probe: 0, policy_random: true, limit: 65536, evict_limit: Some(limit), tcp: false, max_val: None },
         strict: false,
         max_val: 200,
     };
